@@ -15,6 +15,7 @@ package main
 import (
 	"crypto/sha1"
 	"fmt"
+	"sort"
 	"sync"
 	"time"
 
@@ -145,7 +146,11 @@ func runKind(kind string, input [][]byte) c06res {
 			return c06res{"ok", len(ss), 0, digestStrings(ss)}
 		case "encout":
 			ss := rwl.OutboundMessagesToRawPanelASCIIstrings(unmarshalOut(input))
-			return c06res{"ok", len(ss), 0, digestStrings(ss)}
+			// the availability map is a Go map: its "map=" lines come out in a different order on
+			// every call, sequential or not; compare the result as a multiset of lines
+			sorted := append([]string{}, ss...)
+			sort.Strings(sorted)
+			return c06res{"ok", len(ss), 0, digestStrings(sorted)}
 		}
 		panic("unknown kind " + kind)
 	})
